@@ -507,7 +507,7 @@ fn report(rep: &mut Report, ast: &RuleAst, text: &str, doc: &DVal, sw: Sw, cfg: 
     // operand instead of the first; the optimised verdict must be one the rule language allows
     // for some ordering of its conjunctions (set-valued reference interpreter, order-free mode)
     if trig.len() == 1 && trig.contains("negated-structure") && !msw.matrix() {
-        let free = crate::refi::Ref { icase_build: false, order_free: true }.eval_rule(&sr, &sd);
+        let free = crate::refi::Ref { icase_build: false, order_free: true, group_quant: false }.eval_rule(&sr, &sd);
         let got: Option<bool> = sr.to_text().and_then(|t| eng::load_ok(&t)).and_then(|r| eng::optimise(&r, msw).ok()).and_then(|o| eng::matches(&o, &to_yaml_map(&sd)).ok());
         rep.count("negstruct_model_checks");
         match (crate::refi::verdict(free), got) {
@@ -523,6 +523,26 @@ fn report(rep: &mut Report, ast: &RuleAst, text: &str, doc: &DVal, sw: Sw, cfg: 
             // (a definite envelope that agrees cannot occur here: the unoptimised verdict lies
             // inside the envelope and differs from the optimised one)
             _ => {}
+        }
+    }
+    // the condition-quantifier finding has an envelope model too: the optimiser may merge the
+    // operands of X that address one field into one child, so all(X) / of(X, n) may count per
+    // field instead of per entry (or anything in between); the optimised verdict must be one
+    // that some such counting gives
+    if trig.len() == 1 && trig.contains("condition-quantifier") {
+        let env = crate::refi::Ref { icase_build: false, order_free: true, group_quant: true }.eval_rule(&sr, &sd);
+        let got: Option<bool> = sr.to_text().and_then(|t| eng::load_ok(&t)).and_then(|r| eng::optimise(&r, msw).ok()).and_then(|o| eng::matches(&o, &to_yaml_map(&sd)).ok());
+        rep.count("cquant_model_checks");
+        if let (Some(w), Some(g)) = (crate::refi::verdict(env), got) {
+            if w != g {
+                rep.violation(
+                    "verdict-differs",
+                    &format!("c01:S1-cquant-model:{}", tagk),
+                    &format!("{} with switches [{}]: the rule's only trigger is a condition-level quantifier, but the optimised verdict {} is given neither by counting per entry nor by counting per field (envelope {})", what, msw.name(), g, crate::refi::ts_name(env)),
+                    mk_case(json!("S1-cquant-model")),
+                );
+                return;
+            }
         }
     }
     let pri = ["double-negation", "condition-quantifier", "negated-structure"];
